@@ -330,6 +330,8 @@ def run (j : Json) : Except String Json := do
   let orders ← listOfJson (listOfJson strOfJson) (← j.getObjVal? "module_orders")
   let cacts ← listOfJson cactOfJson (← j.getObjVal? "actions")
   let impl ← j.getObjVal? "impl"
+  if let .ok (.str why) := impl.getObjVal? "skip" then
+    return Json.mkObj [("skip", true), ("why", why)]
   let obs ← listOfJson implObsOfJson (← impl.getObjVal? "obs")
   let implTrees ← treesOfJson (← impl.getObjVal? "trees")
   let implInit ← treesOfJson (← impl.getObjVal? "init_trees")
